@@ -76,12 +76,12 @@ NATIVE_SLICE_PRE = 'extern uint32_t ghost_rem, ghost_sym; extern int ghost_k;\n#
 SHL1 = (r'arithmetic overflow on signed shl in 1 << ', 'C-vs-C++ difference: `1 << 31` (int) sets the sign bit; undefined in C11, defined in C++11 and later (CWG 1457). The shift-distance check stays enabled.')
 J('direct.DecodeNextBit.contract', 'h_enf_DirectBitDecoder_DecodeNextBit', ['C17', 'C02'], enforce='DirectBitDecoder_DecodeNextBit', ignore=[SHL1])
 J('direct.DecodeLeastSignificantBits32.contract', 'h_enf_DirectBitDecoder_DecodeLeastSignificantBits32', ['C17', 'C02'], enforce='DirectBitDecoder_DecodeLeastSignificantBits32')
-J('direct.StartDecoding.contract', 'h_enf_DirectBitDecoder_StartDecoding', ['C17', 'C02', 'C18'], enforce='DirectBitDecoder_StartDecoding',
+J('direct.StartDecoding.contract', 'h_enf_DirectBitDecoder_StartDecoding', ['C17', 'C02', 'C18', 'C06'], enforce='DirectBitDecoder_StartDecoding',
   replace=['DecoderBuffer_Decode_u32', 'DecoderBuffer_remaining_size', 'vec_w32_resize_alloc', 'DecoderBuffer_DecodeBytes'])
 J('rbit.DecodeNextBit.contract', 'h_enf_RAnsBitDecoder_DecodeNextBit', ['C17', 'C02'], enforce='RAnsBitDecoder_DecodeNextBit', replace=['rabs_desc_read'])
 J('rbit.DecodeLeastSignificantBits32.contract', 'h_enf_RAnsBitDecoder_DecodeLeastSignificantBits32', ['C17', 'C02'], enforce='RAnsBitDecoder_DecodeLeastSignificantBits32',
   replace=['RAnsBitDecoder_DecodeNextBit'], loops=True)
-J('rbit.StartDecoding.contract', 'h_enf_RAnsBitDecoder_StartDecoding', ['C17', 'C02', 'C18'], enforce='RAnsBitDecoder_StartDecoding',
+J('rbit.StartDecoding.contract', 'h_enf_RAnsBitDecoder_StartDecoding', ['C17', 'C02', 'C18', 'C06'], enforce='RAnsBitDecoder_StartDecoding',
   replace=['DecoderBuffer_Decode_u8', 'DecoderBuffer_Decode_u32', 'DecodeVarint_u32', 'DecoderBuffer_remaining_size', 'DecoderBuffer_data_head', 'DecoderBuffer_Advance', 'ans_read_init', 'ans_read_end'])
 J('direct.rt', 'h_direct_rt', ['C17'], ignore=[SHL1], unwind=34, unwind_reason='harness loops over <= 31 leading bits; vector-model copies of <= 16 bytes; unwinding assertions on', timeout=1500, cost=8)
 J('rbit.pack', 'h_rbit_pack', ['C17'], ignore=[SHL1], solver='cadical', unwind=34, unwind_reason='harness loops over <= 32 bits; CountOneBits32 is loop-free; unwinding assertions on', timeout=1500, cost=8)
